@@ -108,3 +108,21 @@ claim("C02", "Lean 4 proof that every first-order step is sound w.r.t. every mod
       NOTE_COMMON + " 'Never tighter than the ground fixpoint' is established by the soundness theorem for every MODEL of the ground theory (hence for "
       "the hull of all models) and checked against the implementation's own ground fixpoint by the oracle; it is not separately stated as a "
       "lattice-theoretic theorem about the ground engine's least fixpoint.", "DESIGN.md §6 C02")
+claim("C11", "Lean 4 closed forms of quantifier upward aggregation (per group, engine level) + per-call differential oracle",
+      "Theorems C11_qUp_forall / _exists (the activation is the Lukasiewicz conjunction / disjunction of the instance bounds), C11_forall_upper_unit / "
+      "C11_exists_lower_unit / C11_fully_grounded (which bound moves), C11_positives_never_prove / C11_negatives_never_refute / "
+      "C11_one_false_refutes_agg / C11_one_true_proves_agg (the open-world corollaries), C11_engine_group / _forall / _exists / _other_groups / _frame "
+      "(the model's fUpQuant writes, per grounding of the free variables, exactly that aggregate over exactly the body rows of the group, creates missing "
+      "groups at the world default, and touches nothing else), for any free-variable set, any ordered field. Tied to /repo: after EVERY node-level "
+      "upward call of every quantifier (nested ones included) its table is compared with the closed form computed from the tables before the call "
+      "and with the model; data is added in stages so that groups appear out of sorted order.",
+      NOTE_COMMON + " Nested quantifiers are covered by composition (each level is a quantifier over the inner one's table).", "DESIGN.md §6 C11")
+claim("C12", "Lean 4 proofs of sound instantiation (n-ary inverse), exact proposal formulas and engine-level frame/instance theorems + interpretation-first differential oracle",
+      "Theorems C12_sound_forall / _exists / C12_engine_sound (every instance value consistent with the quantifier read as the conjunction/disjunction "
+      "over its known instances stays inside the proposals and inside every row after fDownQuant), C12_lower_passes / C12_axiom_instances_true / "
+      "C12_upper_passes (the universal's lower / existential's upper bound reaches every instance), C12_only_when_forced(_exists) (an instance is "
+      "tightened further only when ALL other instances force it, with the exact formula), C12_false_forall_not_all_false / "
+      "C12_true_exists_not_all_true, C12_engine_frame / _instance (writes only operand rows, each the aggregate of its proposal). Tied to /repo: complete "
+      "tables drawn around an interpretation that satisfies the quantified formulae, quantifier data through add_data, infer() and node-level "
+      "downward calls; the interpretation must stay inside every fact, no contradiction; tables compared with the model.",
+      NOTE_COMMON + " The reading is closed over the instances PRESENT (complete tables in the oracle).", "DESIGN.md §6 C12")
